@@ -125,6 +125,10 @@ def run_bn(cfg, hist):
     tcls = t.nn.BatchNorm2d if rank == 4 else t.nn.BatchNorm1d
     L = cls(C, eps=cfg["eps"], momentum=cfg["momentum"], affine=cfg["affine"], track_running_stats=cfg["track"], dtype=dt.type)
     R = tcls(C, eps=cfg["eps"], momentum=cfg["momentum"], affine=cfg["affine"], track_running_stats=cfg["track"], dtype=tdt)
+    has_affine = getattr(L, "weight", None) is not None and getattr(L, "bias", None) is not None
+    if has_affine != bool(cfg["affine"]) or (getattr(L, "running_mean", None) is not None) != bool(cfg["track"]):
+        return [("batchnorm:constructor-options", f"cfg {cfg}: the layer has {'' if has_affine else 'no '}scale/shift parameters and "
+                 f"{'' if getattr(L, 'running_mean', None) is not None else 'no '}running statistics", [])], 0
     if cfg["affine"]:
         gam, bet = np.array([1.5, -0.5]), np.array([0.25, 2.0])
         L.weight.data = gam.astype(dt); L.bias.data = bet.astype(dt)
